@@ -934,6 +934,7 @@ func (e *Enc) encLookup(fr *Frame, st *State, in *ssa.Lookup) *Val {
 		h := e.heapGet(st, key, sort)
 		t := "(select (select " + h + " " + x.L[0].T + ") " + kt + ")"
 		e.typeAssume(st, lf, t)
+		e.entryRefFact(key, sort, lf, x.L[0].T, kt)
 		out.L = append(out.L, Sc{ite(present, t, e.zero(lf.Sort)), lf.Sort})
 	}
 	if in.CommaOk {
@@ -1049,6 +1050,7 @@ func (e *Enc) encNext(fr *Frame, st *State, in *ssa.Next) *Val {
 		h := e.heapGet(st, hk, hs)
 		t := "(select (select " + h + " " + m + ") " + k + ")"
 		e.typeAssume(st, lf, t)
+		e.entryRefFact(hk, hs, lf, m, k)
 		out.L = append(out.L, Sc{t, lf.Sort})
 	}
 	return out
@@ -1107,4 +1109,13 @@ func (e *Enc) encRunDefers(fr *Frame, st *State, in *ssa.RunDefers) {
 		m := e.mergeStates(fr.prefix+"defer", sts, conds)
 		*st = *m
 	}
+}
+
+// entryRefFact: a reference stored in a map of the ENTRY heap is a reference that existed at entry.
+func (e *Enc) entryRefFact(key, sort string, lf Leaf, m, k string) {
+	if lf.Sort != "Int" || lf.Path != "" || !isRefLike(lf.T) {
+		return
+	}
+	a0 := e.declConst(sym(key+"@0"), sort)
+	e.assert("(<= (select (select " + a0 + " " + m + ") " + k + ") alloc@0)")
 }
